@@ -240,6 +240,45 @@ pub fn verif_root() -> String {
     std::env::var("VERIF_ROOT").unwrap_or_else(|_| "/verif".to_string())
 }
 
+/// Characters a sloppy parser might take for `c`: code points congruent to it modulo 2^8 / 2^16 (byte / u16 truncation),
+/// its full-width form, and every BMP character whose Unicode lower- or upper-case mapping is `c` in either case (U+212A KELVIN SIGN for k and K, ...).
+pub fn lookalikes(c: char) -> Vec<char> {
+    use std::sync::OnceLock;
+    static FOLD: OnceLock<Vec<(char, char)>> = OnceLock::new();
+    let fold = FOLD.get_or_init(|| {
+        let mut v = vec![];
+        for u in 0x80u32..=0xFFFF {
+            if let Some(x) = char::from_u32(u) {
+                let mut lo = x.to_lowercase();
+                if let (Some(a), None) = (lo.next(), lo.next()) {
+                    if a.is_ascii() {
+                        v.push((a, x));
+                    }
+                }
+                let mut up = x.to_uppercase();
+                if let (Some(a), None) = (up.next(), up.next()) {
+                    if a.is_ascii() {
+                        v.push((a, x));
+                    }
+                }
+            }
+        }
+        v
+    });
+    let mut out = vec![];
+    for delta in [0x100u32, 0x200, 0xFF00, 0x10000, 0xFEE0] {
+        if let Some(ch) = char::from_u32(c as u32 + delta) {
+            out.push(ch);
+        }
+    }
+    for &(a, x) in fold.iter() {
+        if a.eq_ignore_ascii_case(&c) && !out.contains(&x) {
+            out.push(x);
+        }
+    }
+    out
+}
+
 pub fn read_lines(path: &str) -> Vec<String> {
     std::fs::read_to_string(path).map(|s| s.lines().filter(|l| !l.trim().is_empty() && !l.starts_with('#')).map(|l| l.to_string()).collect()).unwrap_or_default()
 }
